@@ -48,7 +48,7 @@ PROBES = [
 
 LOOP_TERMINALS = ("loop_while", "loop_cb", "loop_regex", "loop_eval", "loop_getter", "loop_in_try", "loop_in_try_finally",
                   "loop_cb_in_try")
-REC_TERMINALS = ("rec_self", "rec_cb", "rec_in_try")
+REC_TERMINALS = ("rec_self", "rec_cb", "rec_in_try", "rec_global_array_cb")
 MIRRORED_TERMINALS = ("none", "throw_err", "throw_str", "type_error", "throw_in_try_finally")
 NESTED_TERMINALS = ("nested_eval_throw", "nested_eval2_throw", "nested_eval_loop", "nested_newfn_throw")
 OTHER_TERMINALS = ("none", "none", "throw_err", "throw_str", "type_error", "throw_in_try_finally", "syntax", "host_raise", "sink_fail",
@@ -69,6 +69,7 @@ TERMINAL_SRC = {
     "loop_cb_in_try": "try { [1,2].map(function(){ try { while(true){} } catch (e3) {} }); } catch (e4) {}",
     "rec_in_try": "try { (function rt(){ try { return 1 + rt(); } catch (e5) { return rt(); } })(); } catch (e6) {}",
     "throw_in_try_finally": "try { throw new Error('inner'); } finally { gfin = 1; }",
+    "rec_global_array_cb": "if (typeof garr === 'undefined') { garr = [3, 1, 2]; } garr.forEach(function gq(){ garr.forEach(gq); garr.map(gq); });",
     "rec_self": "(function rr(){ return 1 + rr(); })();",
     "rec_cb": "function rc(){ [1].forEach(rc); } rc();",
     "host_raise": "boom();",
@@ -227,6 +228,8 @@ def gen_op(rng, ctxs, vals, allow_reenter):
         return {"op": "regex_reuse", "ctx": c, "stall": rng.choice((0.0, 0.5, 3.0))}
     if r < 0.50:
         return {"op": "strmatch", "ctx": c, "stall": rng.choice((0.0, 3.0)), "pat": rng.randrange(2)}
+    if r < 0.58:
+        return {"op": "array_reuse", "ctx": c, "stall": rng.choice((0.0, 0.0, 3.0))}
     effects = [gen_effect(rng, vals) for _ in range(rng.randrange(1, 5))]
     pool = list(OTHER_TERMINALS)
     if cfg["T_work"]:
@@ -366,6 +369,23 @@ class Sim:
             b = (tw["kind"], tw.get("value") if tw["kind"] == "value" else tw.get("cls"))
             if a != b:
                 self.bad("C12.leak", "RegExp objects defined by an earlier eval: context %d gives %r, its fault-free twin %r (the time budget of an earlier eval carried over?)" % (c, a, b), step)
+            return
+        if kind == "array_reuse":
+            # one global array lives across evals: its callback-taking methods must run their
+            # callbacks in THIS evaluation (its limits, its handlers), whatever earlier evals did
+            if cfg["T_work"]:
+                W.S.mono_off += op["stall"] * cfg["T_work"] * W.S.tick
+            src = ("if (typeof garr === 'undefined') { garr = [3, 1, 2]; }\n"
+                   "[garr.map(function(x){ return x * 2; }).join(), garr.filter(function(x){ return x > 1; }).length,"
+                   " garr.slice().sort(function(a, b){ return a - b; }).join(), garr.reduce(function(a, x){ return a + x; }, 0),"
+                   " (function(){ try { garr.forEach(function(){ throw 7; }); } catch (e) { return e; } return 'none'; })(),"
+                   " (function(){ var n = 0; for (var i = 0; i < 40; i++) { garr.forEach(function(){ n++; }); } return n; })()]")
+            out = run_eval(ctx, src, cap)
+            tw = run_eval(twin, src, cap)
+            a = (out["kind"], out.get("value") if out["kind"] == "value" else out.get("cls"))
+            b = (tw["kind"], tw.get("value") if tw["kind"] == "value" else tw.get("cls"))
+            if a != b or a != ("value", ["6,2,4", 2, "1,2,3", 6, 7, 120]):
+                self.bad("C12.recover", "methods of a global array that earlier evals used: context %d gives %r, its fault-free twin %r, expected ['6,2,4', 2, '1,2,3', 6, 7, 120]" % (c, a, b), step)
             return
         if kind == "strmatch":
             # a pattern given as a STRING to match/search: compiled per call, so no evaluation's
